@@ -941,11 +941,21 @@ class ProgGen(object):
                 if not sets:
                     return None
                 setv, t = r.choice(sets)
-                lv = self.fresh('e')
+                # the loop variable is a new one, or a visible variable of that class (which keeps its value when
+                # the set is empty and holds the last element visited otherwise)
+                same = [v for v, t2 in self.vars_of(lambda t2: t2 == ('inst', t[1]))]
+                reuse = bool(same) and r.random() < 0.35
+                lv = r.choice(same) if reuse else self.fresh('e')
                 items = self.ref.lookup(setv)
                 first = items[0] if items else None
-                self.declare(lv, ('inst', t[1]))
-                self.ref.store(lv, first)
+                if reuse:
+                    self.stats['loop-variable-reused'] = self.stats.get('loop-variable-reused', 0) + 1
+                    if first is None:
+                        self.stats['loop-variable-reused-empty-set'] = self.stats.get('loop-variable-reused-empty-set', 0) + 1
+                else:
+                    self.declare(lv, ('inst', t[1]))
+                if first is not None or not reuse:
+                    self.ref.store(lv, first)
                 self.in_loop += 1
                 try:
                     body = self.block(depth - 1) if first is not None else [assign(var(self.fresh()), lit(1))]
@@ -953,9 +963,10 @@ class ProgGen(object):
                     self.in_loop -= 1
                 stmts = [for_each(lv, setv, body)]
                 self.restore(real.fork())
-                # the loop variable is not relied upon after the loop
-                for b in self.types:
-                    b.pop(lv, None)
+                # a new loop variable is not relied upon after the loop
+                if not reuse:
+                    for b in self.types:
+                        b.pop(lv, None)
         except RefError:
             self.restore(real)
             self.types = types_before
